@@ -10,6 +10,7 @@ rules of the property and prints the verdict.  Exit 0 / 1 (VIOLATION) / 2
 import argparse
 import importlib
 import os
+import pathlib
 import sys
 import traceback
 
@@ -52,7 +53,13 @@ def main(argv=None):
             ctx.shortfalls.append("analysis incomplete: %s" % ex)
             info = dict(explanation="analysis incomplete (%s); the violations found before that point are reported" % ex,
                         assumptions=[], technique="")
-        if a.tier == "thorough" and not a.no_selftest:
+        known_keys = {k["key"] for k in report.load_known() if k.get("status") == "known"}
+        has_new = bool([f for f in ctx.findings if f.key not in known_keys])
+        if a.tier == "thorough" and not a.no_selftest and has_new:
+            # the self-test edits are applied on top of the tree under analysis; on a tree that already violates the property
+            # their verdicts say nothing about the checker - the violation is reported, the self-test is skipped
+            ctx.extra["selftest"] = dict(skipped="the tree under analysis violates the property; self-test not meaningful")
+        if a.tier == "thorough" and not a.no_selftest and not has_new:
             sys.path.insert(0, os.path.join(HERE, "selftest"))
             import run as selftest_run
             summary, res = selftest_run.run_for(prop)
@@ -62,6 +69,20 @@ def main(argv=None):
                     prop, len(summary["wrong"]), [w["id"] for w in summary["wrong"]]))
                 report.finish(ctx, info["explanation"], info["assumptions"], technique=info.get("technique", ""))
                 return 2
+            # the independent corpora (seeded breaking changes of this property, all behaviour-preserving refactorings) are
+            # diffs against the reference tree: replayed only when the tree under analysis IS the reference tree
+            import corpora
+            refd = (pathlib.Path(HERE) / "selftest" / "reference_digest.txt")
+            if refd.exists() and corpora.tree_digest(str(model.repo)) == refd.read_text().strip():
+                cs = corpora.run_for(prop, str(model.repo))
+                ctx.extra["corpora"] = {k: v for k, v in cs.items() if k != "wrong"}
+                if cs["wrong"]:
+                    print("ANALYSIS-ERROR property=%s corpus replay: %d item(s) judged wrongly: %s" % (
+                        prop, len(cs["wrong"]), [(w["id"], w.get("exit")) for w in cs["wrong"]]))
+                    report.finish(ctx, info["explanation"], info["assumptions"], technique=info.get("technique", ""))
+                    return 2
+            else:
+                ctx.extra["corpora"] = dict(skipped="the tree under analysis differs from the reference tree the corpora were written against")
         return report.finish(ctx, info["explanation"], info["assumptions"], technique=info.get("technique", ""))
     except report.AnalysisError as ex:
         print("ANALYSIS-ERROR property=%s %s" % (prop, ex))
